@@ -18,6 +18,7 @@ RULE = ('rt: frame (flags, opcode, masked, key, payload spec, tail) built and pa
 ASSUMPTIONS = [
     'frames are freshly populated objects (payload_length None) as in WebsocketFrame.text()/client usage',
     'hashlib.sha1/base64 are tied to the Lean SHA-1/base64 model only on the keys run',
+    'handshake cases drive HttpWebServerPlugin.on_request_complete directly (flags with and without key/cert files); no TLS handshake is run',
 ]
 EXHAUSTIVE = {}
 
@@ -77,6 +78,8 @@ def impl(case):
         return ['ok ' + hx(F.WebsocketFrame.key_to_accept(bytes.fromhex(case['key'])))]
     if k == 'wsloop':
         return _wsloop_impl(case)
+    if k == 'hs':
+        return [_handshake_impl(case)]
     if k == 'mask':
         try:
             return ['ok ' + hx(F.WebsocketFrame.apply_mask(bytes.fromhex(case['data']), bytes.fromhex(case['mask'])))]
@@ -122,8 +125,69 @@ def _wsloop_impl(case):
     return log + ['missing'] * (len(case['frames']) - len(log))
 
 
+_HS_WORLD = {}
+
+
+def _hs_flags(tls):
+    """flags with the web server and one websocket route plugin; `tls` = --key-file/--cert-file set
+    (encryption_enabled() is true; no TLS handshake is run here, the plugin is driven directly)."""
+    if tls in _HS_WORLD:
+        return _HS_WORLD[tls]
+    import logging
+    logging.disable(logging.CRITICAL)
+    from proxy.common.flag import FlagParser
+    from proxy.http.server import HttpWebServerBasePlugin, httpProtocolTypes
+
+    class WsRoute(HttpWebServerBasePlugin):
+        def routes(self):
+            return [(httpProtocolTypes.WEBSOCKET, r'/ws$'), (httpProtocolTypes.HTTP, r'/ws-http$'),
+                    (httpProtocolTypes.HTTPS, r'/ws-https$')]
+
+        def handle_request(self, request):
+            pass
+    flags = FlagParser.initialize(['--enable-web-server', '--hostname', '127.0.0.1'], threadless=True, plugins=[WsRoute])
+    if tls:
+        flags.keyfile, flags.certfile = '/nonexistent/key.pem', '/nonexistent/cert.pem'
+    _HS_WORLD[tls] = flags
+    return flags
+
+
+def _handshake_impl(case):
+    """Websocket upgrade request through the real HttpWebServerPlugin.on_request_complete: the accept token
+    of the 101 reply (or what else was queued)."""
+    import socket
+    from proxy.http.server.web import HttpWebServerPlugin
+    from proxy.http.parser import HttpParser, httpParserTypes
+    from proxy.http.connection import HttpClientConnection
+    key = bytes.fromhex(case['key'])
+    req = HttpParser(httpParserTypes.REQUEST_PARSER)
+    req.parse(memoryview(b'GET /ws HTTP/1.1\r\nHost: x\r\nUpgrade: ' + case['upg'].encode() + b'\r\nConnection: Upgrade\r\n'
+                         b'Sec-WebSocket-Key: ' + key + b'\r\nSec-WebSocket-Version: 13\r\n\r\n'))
+    a, b_ = socket.socketpair()
+    try:
+        client = HttpClientConnection(a, ('127.0.0.1', 1))
+        p = HttpWebServerPlugin('uid', _hs_flags(case['tls']), client, req, None, None)
+        try:
+            p.on_request_complete()
+        except Exception as e:
+            return 'exc ' + exc_name(e)
+        out = b''.join(bytes(x) for x in client.buffer)
+    finally:
+        a.close()
+        b_.close()
+    if not out.startswith(b'HTTP/1.1 101'):
+        return 'noupgrade ' + out.split(b'\r\n', 1)[0].decode('latin1').replace(' ', '_')
+    for line in out.split(b'\r\n'):
+        if line.lower().startswith(b'sec-websocket-accept:'):
+            return 'ok ' + hx(line.split(b':', 1)[1].strip())
+    return 'noaccept'
+
+
 def model_lines(case):
     k = case['kind']
+    if k == 'hs':
+        from proxy.http.websocket.frame import WebsocketFrame
+        return ['ws accept %s %s' % (hx(WebsocketFrame.GUID), case['key'] or '-')]
     if k == 'wsloop':
         # each frame is parsed from the start of what the previous one left: model = fresh parse per frame
         return ['ws parse ' + hx(x) for x in _wsloop_frames(case)]
@@ -181,6 +245,11 @@ def oracle(case):
         want = base64.b64encode(hashlib.sha1(key + b'258EAFA5-E914-47DA-95CA-C5AB0DC85B11').digest())
         got = F.WebsocketFrame.key_to_accept(key)
         return None if got == want else 'accept-token-differs-from-rfc-formula'
+    if k == 'hs':
+        key = bytes.fromhex(case['key'])
+        want = base64.b64encode(hashlib.sha1(key + b'258EAFA5-E914-47DA-95CA-C5AB0DC85B11').digest())
+        got = _handshake_impl(case)
+        return None if got == 'ok ' + hx(want) else 'handshake-accept-token-not-the-rfc-formula'
     if k == 'wsloop':
         got = _wsloop_impl(case)
         for fr, line in zip(case['frames'], got):
@@ -255,6 +324,9 @@ def corpus():
     cs.append({'kind': 'wsloop', 'frames': [fr(1, 1, 'a1b2c3d4', '68656c6c6f'), fr(1, 0, None, '776f726c64')]})
     cs.append({'kind': 'wsloop', 'frames': [fr(2, 0, None, '00ff'), fr(2, 1, '01020304', ''), fr(9, 0, None, '70')]})
     cs.append({'kind': 'wsloop', 'frames': [fr(1, 1, '00000000', '61'), fr(1, 1, 'ffffffff', '62'), fr(1, 0, None, '63')]})
+    for tls in (0, 1):
+        for upg in ('websocket', 'WebSocket'):
+            cs.append({'kind': 'hs', 'key': b'dGhlIHNhbXBsZSBub25jZQ=='.hex(), 'tls': tls, 'upg': upg})
     cs.append({'kind': 'mask', 'data': '0102030405', 'mask': 'ffeeddcc'})
     cs.append({'kind': 'mask', 'data': '01', 'mask': 'ff'})
     cs.append({'kind': 'mask', 'data': '', 'mask': ''})
@@ -316,6 +388,9 @@ def generate(rng, tier):
                            'mask': bytes(rng.randrange(256) for _ in range(4)).hex() if masked else None,
                            'data': {'n': n, 'a': rng.randrange(256), 'b': rng.randrange(256)}})
         yield {'kind': 'wsloop', 'frames': frames}
+    for _ in range(40 if not big else 400):
+        key = base64.b64encode(bytes(rng.randrange(256) for _ in range(rng.choice([16, 16, 8, 20])))).hex()
+        yield {'kind': 'hs', 'key': key, 'tls': rng.randrange(2), 'upg': rng.choice(['websocket', 'WEBSOCKET', 'Websocket'])}
     for _ in range(60 if not big else 600):
         yield {'kind': 'mask', 'data': bytes(rng.randrange(256) for _ in range(rng.randrange(12))).hex(),
                'mask': bytes(rng.randrange(256) for _ in range(rng.choice([0, 1, 3, 4, 4, 4, 5]))).hex()}
@@ -340,6 +415,8 @@ def search(rng):
 def describe(case):
     if case['kind'] == 'wsloop':
         return ['wsloop frames=%d' % len(case['frames'])]
+    if case['kind'] == 'hs':
+        return ['handshake tls=%d' % case['tls']]
     if case['kind'] == 'rt':
         n = len(payload(case['data'])) if 'hex' in case['data'] else case['data']['n']
         b = '0' if n == 0 else '<126' if n < 126 else '<64K' if n < 65536 else '>=64K'
@@ -348,4 +425,4 @@ def describe(case):
 
 
 def nontrivial(case):
-    return in_quantifier(case) or case['kind'] == 'wsloop'
+    return in_quantifier(case) or case['kind'] in ('wsloop', 'hs')
